@@ -20,7 +20,7 @@
 (*   "CsNoColorReset"  cs/CS do not reset the colour to the initial value  *)
 (*   "DQuoteNoTstar", "FormCtmLeak", "ScnShortRaises" (repaired in /repo)  *)
 (***************************************************************************)
-EXTENDS Integers, Sequences, FiniteSets, TLC, Json
+EXTENDS Integers, Sequences, FiniteSets, TLC, Json, InterpFrame
 
 \* the deviation set is a variable fixed at Init, so that one TLC run yields the intended outputs (dev = {}), the
 \* as-coded outputs (all listed deviations) and one run per single deviation (used to attribute a difference)
@@ -339,6 +339,11 @@ FormTransparent == [][ (pc' = pc + 1 /\ CurTok.t = "op" /\ OpStr(CurTok) = "Do")
 BadOperandsFrame ==
   [][ (pc' = pc + 1 /\ CurTok.t = "op" /\ NArgs(OpStr(CurTok)) > 0 /\ Len(st.args) < NArgs(OpStr(CurTok))) =>
         [st' EXCEPT !.args = <<>>] = [st EXCEPT !.args = <<>>] ]_vars
+\* every operator changes only the state components its frame (InterpFrame.tla) allows
+FrameOK == [][ (pc' = pc + 1 /\ CurTok.t = "op") =>
+                 LET f == Frame(OpStr(CurTok)) IN
+                 /\ (st'.ctm # st.ctm => "ctm" \in f) /\ (st'.ts # st.ts => "ts" \in f) /\ (st'.gs # st.gs => "gs" \in f)
+                 /\ (Len(st'.path) # Len(st.path) => "path" \in f) /\ (Len(st'.gstack) # Len(st.gstack) => "depth" \in f) ]_vars
 NoError == "ScnShortRaises" \notin dev => st.err = "none"
 
 \* intended result and blame (deviations that alone already change the outputs)
